@@ -68,6 +68,28 @@ CLAIMS = {
         "the dyadic alphabet, tolerant comparison in the direct search).",
         "DESIGN.md §5 C12, Appendix A.2",
     ),
+    "C14": (
+        "Lean theorems for ALL bases (lists of shells with arbitrary generalized contractions) and both keep_sp values: "
+        "convert_to_segmented keeps the list of contracted function sets (centre, l, kind, exponents, coefficients) in "
+        "order, hence the basis functions, their number and any function of them (overlap matrix); leaves no generalized "
+        "contraction (except kept SP shells); is idempotent and returns the very same Shell objects when nothing needs "
+        "converting (identity as an explicit flag); well-formedness is kept. For ALL restricted orbitals reachable by "
+        "any C12 history: convert_to_unrestricted builds a valid unrestricted object with the same occsa, occsb, "
+        "coeffsa/b, energiesa/b, irrepsa/b, hence the same (spin) density data, nelec and spinpol; unrestricted input "
+        "is returned as is (idempotent); generalized -> ValueError. prepare_segmented / prepare_unrestricted_aminusb: "
+        "complete decision tables (ValueError / same object / PrepareDumpError / exactly one warning + converted "
+        "attribute with the preserved quantities). Model tied to convert.py/prepare.py by four correspondence streams "
+        "(shell-by-shell incl. `is` identity, orbital observables, outcome classes and warning counts), an "
+        "ast-extracted control-flow skeleton proved equal to the model's, and a direct search on the real code incl. "
+        "compute_overlap(b) == compute_overlap(segment b).",
+        "Lean 4 proof (list induction, C12 invariant and spin lemmas, decide +kernel for the generated skeleton) "
+        "+ model-vs-code correspondence + overlap oracle on the real code",
+        "Modelled: orbitals as in C12; attrs.evolve keeps all other attributes (for IOData it replays __init__: with a "
+        "stale hidden _nelec/_spinpol and orbitals present it raises TypeError - recorded observation, outside C14's "
+        "statement); np.concatenate / zip / reshape as transcribed; overlap equality is checked numerically on the "
+        "real code, in Lean it is the corollary 'same function list'.",
+        "DESIGN.md §5 C14",
+    ),
 }
 
 NOT_YET = {}
